@@ -8,6 +8,10 @@
 //    mpt_printf/mpt_vprintf, raw mpt_array_push, buf->_vptr->detach(len), buffers seeded through
 //    _mpt_buffer_alloc(len, flags) with flags {0, Immutable, NoCopy, both}. Offsets/lengths near {0, used, size, 64, 128, 192} (+-2), past the
 //    end, and (rarely) near SIZE_MAX/LONG_MAX for the functions that carry an explicit overflow guard.
+//    Two operations were added later (3 % of the operations): "far" = mpt_buffer_{cut,insert,set}, mpt_array_{insert,slice,set}
+//    with an offset/length (pair) around SIZE_MAX, LONG_MAX, 2^62, incl. pairs whose sum (element offset: product) wraps back
+//    into the data, all of which must be refused; "printf-conv" = mpt_printf/mpt_vprintf with a wide character the "C" locale
+//    cannot convert (vsnprintf fails), which must be refused with every handle unchanged.
 // O: every handle has a std::vector<uint8_t> model with value semantics. After EVERY operation every handle
 //    is read back completely (length + bytes) and compared with its model:
 //      other-changed:<op>    a handle that was not the target reads something else than before
@@ -642,6 +646,135 @@ struct World {
     verify("array_string", i, !r);
   }
 
+
+  // ---- arguments far outside any buffer: around SIZE_MAX, LONG_MAX and the values whose sum / product wraps
+  // back into the data ("operations whose arguments fall outside the data are refused")
+  size_t far() {
+    size_t k = c.near({0, 1, 3, 7, 64, 130}, 260);
+    switch (c.pick(4)) {
+      case 0: return SIZE_MAX - k;
+      case 1: return (size_t)LONG_MAX + 1 - k;
+      case 2: return (size_t)LONG_MAX + 1 + k;
+      default: return ((size_t)1 << 62) + k;
+    }
+  }
+  // (first, second) with at least one far value; mode 1: the sum wraps to a position inside [0, lim + 2]
+  void far_pair(size_t lim, size_t e, size_t &a, size_t &b) {
+    switch (c.pick(3)) {
+      case 0: a = far(); b = c.near({0, 1, lim, e, 64}, lim + 70); break;
+      case 1: { size_t t = c.near({0, 1, lim}, lim + 2); a = far(); if (a < SIZE_MAX - 600 && c.flip()) a = SIZE_MAX - (size_t)c.range(0, 260); b = (size_t)0 - a + t; } break;
+      default: a = c.near({0, 1, lim}, lim + 2); b = far(); break;
+    }
+    if (e > 1 && !c.chance(20)) { a -= a % e; b -= b % e; }
+  }
+  void op_far() {
+    int sub = (int)c.weighted({4, 2, 2, 2, 2, 3});
+    int i = sub < 3 ? pick_private(true) : -1;
+    if (i < 0 && sub < 3) sub += 3;   // no privately held buffer: the array level call of the same kind
+    if (i < 0) i = pick_array(sub != 5);
+    Handle &x = h[i];
+    CBuf *b = x.buf();
+    size_t used = b ? b->used : 0, cap = b ? b->size : 0, e = esz(b ? b->traits : 0), a1 = 0, a2 = 0;
+    bool ok = false;
+    const char *op = "";
+    if (sub != 5) far_pair(sub == 0 ? used : cap, e, a1, a2);
+    switch (sub) {
+      case 0: {
+        op = "buffer_cut";
+        c.logf("  mpt_buffer_cut(h%d, off=%zu, len=%zu) far out of range   [%s]", i, a1, a2, desc(i).c_str());
+        ssize_t r = mpt_buffer_cut(lib(b), a1, a2);
+        c.logf("    = %zd", r);
+        ok = r >= 0;
+      } break;
+      case 1: {
+        op = "buffer_insert";
+        c.logf("  mpt_buffer_insert(h%d, pos=%zu, len=%zu) far out of range   [%s]", i, a1, a2, desc(i).c_str());
+        void *r = mpt_buffer_insert(lib(b), a1, a2);
+        c.logf("    = %s", r ? "address" : "NULL");
+        ok = r;
+      } break;
+      case 2: {
+        op = "buffer_set";
+        bool zero = c.flip();
+        std::vector<uint8_t> d = pattern(16);   // never read when the call is refused as it must be
+        c.logf("  mpt_buffer_set(h%d, %s, pos=%zu, %s, len=%zu) far out of range   [%s]", i, tname(b->traits), a1, zero ? "NULL" : "data", a2, desc(i).c_str());
+        long r = mpt_buffer_set(lib(b), b->traits, a1, zero ? 0 : d.data(), a2);
+        c.logf("    = %ld", r);
+        ok = r >= 0;
+      } break;
+      case 3: {
+        op = "insert";
+        c.logf("  mpt_array_insert(h%d, pos=%zu, len=%zu) far out of range   [%s]", i, a1, a2, desc(i).c_str());
+        void *r = mpt_array_insert(x.arr(), a1, a2);
+        c.logf("    = %s", r ? "address" : "NULL");
+        ok = r;
+      } break;
+      case 4: {
+        op = "slice";
+        c.logf("  mpt_array_slice(h%d, off=%zu, len=%zu) far out of range   [%s]", i, a1, a2, desc(i).c_str());
+        void *r = mpt_array_slice(x.arr(), a1, a2);
+        c.logf("    = %s", r ? "address" : "NULL");
+        ok = r;
+      } break;
+      default: {  // element offset whose byte position does not fit / wraps
+        op = "set";
+        const type_traits *bt = b ? b->traits : 0, *t = bt ? bt : (ft ? ft : TC);
+        size_t es = t->size, k = (size_t)c.range(0, 70);
+        long off;
+        switch (c.pick(5)) {
+          case 0: off = LONG_MAX - (long)k; break;
+          case 1: off = (long)(LONG_MAX / es + 1 + k); break;           // off * size leaves the positive range
+          case 2: off = (long)(SIZE_MAX / es + 1 + k); break;           // off * size wraps to k * size (size > 1)
+          case 3: off = LONG_MIN + (long)k; break;
+          default: off = (long)((size_t)0 - (SIZE_MAX / es / 2 + 1) * 2 + k); break;   // -(2^64/size) + k: wraps to k * size behind the end
+        }
+        if (es == 1 && off >= 0 && off < LONG_MAX - 70) off = LONG_MAX - (long)k;   // size 1: every representable far offset
+        if (es == 1 && off < 0 && off > LONG_MIN + 70) off = LONG_MIN + (long)k;
+        size_t len = es * c.near({0, 1, 16}, 40);
+        bool zero = c.flip();
+        std::vector<uint8_t> d = pattern(len);
+        c.logf("  mpt_array_set(h%d, %s, len=%zu, %s, off=%ld) far out of range   [%s]", i, tname(t), len, zero ? "NULL" : "data", off, desc(i).c_str());
+        void *r = mpt_array_set(x.arr(), t, len, zero ? 0 : d.data(), off);
+        c.logf("    = %s", r ? "address" : "NULL");
+        ok = r;
+      } break;
+    }
+    VP_CHECK(c, !ok, tag("not-refused", op), "%s with arguments far outside the data (%zu used, size %zu) was accepted; used is now %zu", op, used, cap, x.buf() ? x.buf()->used : 0);
+    outcome("far", false);   // (the engine keeps 160 labels: one label for all six calls)
+    verify(op, i, true);
+  }
+
+  // a print whose conversion fails (wide character without representation in the "C" locale): refused, nothing changes
+  void op_printf_conv() {
+    static const wchar_t bad[] = {0x20ac, 0};
+    int i = pickh([](Handle &x) { CBuf *b = x.buf(); return x.kind == KArray && b && b->traits == TC; });
+    if (i < 0) i = pickh([](Handle &x) { CBuf *b = x.buf(); return x.kind == KArray && !b; });
+    if (i < 0) i = pick_array();
+    Handle &x = h[i];
+    int variant = (int)c.pick(3);
+    bool via = c.flip();
+    std::string s = text(c.near({0, 1, 63, 64}, 80));
+    static const char *kFmt[] = {"%ls", "%s%ls", "<%ls>%s"};
+    char want[400];
+    int n, r;
+    array *a = x.arr();
+    CBuf *b = x.buf();
+    if (b && sharers(b) > 1) c.label("printf-conv:shared");
+    c.logf("  %s(h%d, \"%s\") with a wide character that cannot be converted   [%s]", via ? "mpt_vprintf" : "mpt_printf", i, kFmt[variant], desc(i).c_str());
+    switch (variant) {
+      case 0: n = snprintf(want, sizeof want, "%ls", bad); r = via ? vcall(a, "%ls", bad) : mpt_printf(a, "%ls", bad); break;
+      case 1: n = snprintf(want, sizeof want, "%s%ls", s.c_str(), bad); r = via ? vcall(a, "%s%ls", s.c_str(), bad) : mpt_printf(a, "%s%ls", s.c_str(), bad); break;
+      default: n = snprintf(want, sizeof want, "<%ls>%s", bad, s.c_str()); r = via ? vcall(a, "<%ls>%s", bad, s.c_str()) : mpt_printf(a, "<%ls>%s", bad, s.c_str()); break;
+    }
+    c.logf("    = %d (snprintf of the C library: %d)", r, n);
+    if (r >= 0) {
+      VP_CHECK(c, n >= 0, "printf-invented", "the C library cannot convert the arguments (snprintf = %d) but the print reports %d characters", n, r);
+      x.m.insert(x.m.end(), want, want + n);
+    }
+    outcome("printf-conv", r >= 0);
+    verify("printf-conv", i, r < 0);
+  }
+
   // ---------------------------------------------------------------- history
   enum { OAppend, OInsert, OSet, OSlice, OReserve, OClone, OReduce, OBInsert, OBCut, OBSet, OMkSlice, OSWrite, OPush, OSeed, OPrintf, OString, ODetach, NOps };
 
@@ -662,9 +795,15 @@ struct World {
     for (unsigned w : W[flavor]) tot += w;
     unsigned nops = 0;
     while (c.more() && nops < 48) {
-      unsigned r = (unsigned)c.range(0, tot - 1), op = 0;
-      while (r >= W[flavor][op]) r -= W[flavor][op++];
+      // one byte: the 8 highest values select the operations added later (far arguments, failing print conversion),
+      // every other value keeps its earlier meaning (byte % total weight) so that saved cases decode as before
+      unsigned byte = (unsigned)c.range(0, 255), r = byte % tot, op = 0;
       ++nops;
+      if (byte >= 248) {
+        if (byte < 253 && !(flavor == FChar && byte >= 251)) op_far(); else op_printf_conv();
+        continue;
+      }
+      while (r >= W[flavor][op]) r -= W[flavor][op++];
       switch (op) {
         case OAppend: op_append(); break;
         case OInsert: op_insert(); break;
@@ -1297,7 +1436,7 @@ Target t = {
     "C04",
     "random, scenario C API (3/4): history of <= 48 operations over 4 handle slots (array | slice window | raw encode_array), one content flavour per case (raw | 'c' | plain 4-byte elements); "
     "operations mpt_array_{append,insert,set,slice,reserve,clone,reduce,string}, mpt_buffer_{insert,cut,set} on privately held buffers, mpt_slice_write, mpt_printf/mpt_vprintf, raw mpt_array_push, buffer detach(len), "
-    "buffers seeded by _mpt_buffer_alloc(len, {0,Immutable,NoCopy,both}); offsets/lengths near {0, used, size, 64, 128, 192} +-2, past the end, rarely near SIZE_MAX/LONG_MAX; "
+    "buffers seeded by _mpt_buffer_alloc(len, {0,Immutable,NoCopy,both}); offsets/lengths near {0, used, size, 64, 128, 192} +-2, past the end, rarely near SIZE_MAX/LONG_MAX, offset/length pairs far outside (sums/products that wrap into the data), prints whose conversion fails; "
     "every handle read back and compared with a std::vector value model after every operation. "
     "scenario C++ API (1/4): histories of <= 40 operations over 3 objects of mpt::array (+ one mpt::slice) | typed_array<int32_t> | unique_array<int32_t> | pointer_array<int> | map<int32_t,int32_t> "
     "(set/append/insert/prepend/assign/iovec/span/content/printf/string, shift/trim/write, insert/set/get/resize/reserve/detach/compact/swap/offset, set/append/get/values) against std::vector models. "
